@@ -209,8 +209,176 @@ pub fn fields_cmd(args: &[String]) {
     out.flush();
 }
 
-pub fn blend_cmd(_args: &[String]) {
-    unimplemented!()
+// ---------------------------------------------------------------------------------------
+// Blend vectors (C03 / C17): two-layer sprites rendered through Frame::image.
+
+type Px = [u8; 4];
+
+fn render_vectors(mode: u16, lop: u8, cop: u8, bs: &[(Px, Px)]) -> Result<Vec<Px>, String> {
+    use crate::prog::*;
+    let n = bs.len() as u16;
+    let back = CelC { layer: 0, ctype: 0, w: n, h: 1, px: bs.iter().map(|p| p.0.to_vec()).collect(), opacity: 255, ..Default::default() };
+    let src = CelC { layer: 1, ctype: 0, w: n, h: 1, px: bs.iter().map(|p| p.1.to_vec()).collect(), opacity: cop, ..Default::default() };
+    let l0 = LayerC { flags: 1, opacity: 255, blend: 0, ..Default::default() };
+    let l1 = LayerC { flags: 1, opacity: lop, blend: mode, ..Default::default() };
+    let mut p = Program {
+        hdr: Hdr { w: n, h: 1, depth: 32, ..Default::default() },
+        frames: vec![FrameP { dur: 1, chunks: vec![Chunk::Layer(l0), Chunk::Layer(l1), Chunk::Cel(back), Chunk::Cel(src)], ..Default::default() }],
+        trailing: vec![],
+    };
+    p.normalize();
+    let bytes = encode(&p).bytes;
+    PANIC_INFO.with(|p| p.borrow_mut().take());
+    let r = catch_unwind(AssertUnwindSafe(|| {
+        let ase = AsepriteFile::read(&bytes[..]).map_err(|e| format!("load: {}", e))?;
+        let img = ase.frame(0).image();
+        Ok::<Vec<Px>, String>(img.pixels().map(|p| p.0).collect())
+    }));
+    match r {
+        Ok(v) => v,
+        Err(_) => Err(format!("panic: {}", PANIC_INFO.with(|p| p.borrow_mut().take()).unwrap_or_default())),
+    }
+}
+
+struct BlendOut {
+    outs: Vec<Out>,
+    next: usize,
+    pub events: usize,
+    pub vectors: usize,
+}
+impl BlendOut {
+    fn emit(&mut self, mode: u16, lop: u8, cop: u8, bs: &[(Px, Px)]) {
+        for chunk in bs.chunks(128) {
+            let r = render_vectors(mode, lop, cop, chunk);
+            let rn = if mode == 0 { r.clone() } else { render_vectors(0, lop, cop, chunk) };
+            let b: Vec<Px> = chunk.iter().map(|p| p.0).collect();
+            let s: Vec<Px> = chunk.iter().map(|p| p.1).collect();
+            let ev = match (r, rn) {
+                (Ok(r), Ok(rn)) => json!({"ev": "blend", "m": mode, "lop": lop, "cop": cop, "B": b, "S": s, "R": r, "RN": rn, "panic": ""}),
+                (Err(e), _) | (_, Err(e)) => json!({"ev": "blend", "m": mode, "lop": lop, "cop": cop, "B": b, "S": s, "R": [], "RN": [], "panic": e}),
+            };
+            let k = self.next % self.outs.len();
+            self.outs[k].ev(&ev);
+            self.next += 1;
+            self.events += 1;
+            self.vectors += chunk.len();
+        }
+    }
+}
+
+const LATTICE: [u8; 11] = [0, 1, 2, 63, 64, 127, 128, 129, 191, 254, 255];
+const ALPHA_GRID: [u8; 12] = [0, 1, 2, 64, 127, 128, 129, 192, 253, 254, 255, 77];
+const INT_MODES: [u16; 14] = [1, 2, 3, 4, 5, 6, 7, 8, 9, 10, 11, 16, 17, 18];
+
+/// blend --stratum chan|chanalpha|opacity|lattice|random|hsl|laws --seed S --n N --out prefix --shards K [--modes a,b]
+pub fn blend_cmd(args: &[String]) {
+    use rand::rngs::StdRng;
+    use rand::seq::SliceRandom;
+    use rand::{Rng, SeedableRng};
+    let stratum = arg(args, "--stratum").unwrap_or("chan");
+    let seed: u64 = arg(args, "--seed").and_then(|s| s.parse().ok()).unwrap_or(1);
+    let n: usize = arg(args, "--n").and_then(|s| s.parse().ok()).unwrap_or(10000);
+    let shards: usize = arg(args, "--shards").and_then(|s| s.parse().ok()).unwrap_or(1);
+    let prefix = arg(args, "--out").unwrap_or("blend");
+    let modes: Vec<u16> = arg(args, "--modes").map(|m| m.split(',').filter_map(|x| x.parse().ok()).collect()).unwrap_or_else(|| (0..19).collect());
+    let mut o = BlendOut { outs: (0..shards).map(|i| Out::new(&format!("{}.{}", prefix, i))).collect(), next: 0, events: 0, vectors: 0 };
+    let mut r = StdRng::seed_from_u64(seed ^ 0xb1e4d);
+    match stratum {
+        // complete channel tables: all 2^16 (b, s) per mode at Ba = Sa = op = 255, three pairs per pixel
+        "chan" => {
+            for &m in modes.iter().filter(|m| INT_MODES.contains(m)) {
+                let pairs: Vec<(u8, u8)> = (0..=255u8).flat_map(|b| (0..=255u8).map(move |s| (b, s))).collect();
+                let mut v = vec![];
+                for t in pairs.chunks(3) {
+                    let g = |i: usize| t.get(i).copied().unwrap_or(t[0]);
+                    v.push(([g(0).0, g(1).0, g(2).0, 255], [g(0).1, g(1).1, g(2).1, 255]));
+                }
+                o.emit(m, 255, 255, &v);
+            }
+        }
+        // all 2^16 (b, s) x 12x12 alpha grid, op from --n selects how many (lop,cop) settings (1..3)
+        "chanalpha" => {
+            let ops: Vec<(u8, u8)> = [(255u8, 255u8), (255, 128), (1, 255)].iter().copied().take(n.clamp(1, 3)).collect();
+            for &m in modes.iter().filter(|m| INT_MODES.contains(m)) {
+                for &(lop, cop) in &ops {
+                    for &ba in &ALPHA_GRID {
+                        for &sa in &ALPHA_GRID {
+                            let pairs: Vec<(u8, u8)> = (0..=255u8).flat_map(|b| (0..=255u8).map(move |s| (b, s))).collect();
+                            let mut v = vec![];
+                            for t in pairs.chunks(3) {
+                                let g = |i: usize| t.get(i).copied().unwrap_or(t[0]);
+                                v.push(([g(0).0, g(1).0, g(2).0, ba], [g(0).1, g(1).1, g(2).1, sa]));
+                            }
+                            o.emit(m, lop, cop, &v);
+                        }
+                    }
+                }
+            }
+        }
+        // all 2^16 (layer, cel) opacity pairs on fixed colours
+        "opacity" => {
+            let fixed: [(Px, Px); 4] = [([10, 200, 30, 255], [250, 3, 128, 255]), ([10, 200, 30, 128], [250, 3, 128, 200]), ([0, 0, 0, 0], [9, 8, 7, 255]), ([255, 255, 255, 1], [0, 0, 0, 254])];
+            for &m in &modes {
+                for lop in 0..=255u8 {
+                    for cop in 0..=255u8 {
+                        o.emit(m, lop, cop, &fixed);
+                    }
+                }
+            }
+        }
+        // boundary lattice of whole pixels, random points of LATTICE^8 x opacities from the lattice
+        "lattice" | "random" | "hsl" | "laws" => {
+            let per = (n / modes.len().max(1)).max(1);
+            for &m in &modes {
+                let mut done = 0;
+                while done < per {
+                    let (lop, cop): (u8, u8) = match stratum {
+                        "random" => (r.gen(), r.gen()),
+                        "laws" => *[(0u8, 255u8), (255, 0), (255, 255), (1, 1), (0, 0)].choose(&mut r).unwrap(),
+                        _ => (*LATTICE.choose(&mut r).unwrap(), if r.gen_bool(0.5) { 255 } else { *LATTICE.choose(&mut r).unwrap() }),
+                    };
+                    let k = 128.min(per - done);
+                    let v: Vec<(Px, Px)> = (0..k)
+                        .map(|_| {
+                            let mut px = |r: &mut StdRng| -> Px {
+                                match stratum {
+                                    "random" => [r.gen(), r.gen(), r.gen(), r.gen()],
+                                    "hsl" => {
+                                        // greys, primaries, ties (r = g < b etc.) and threshold values
+                                        let t: [u8; 8] = [0, 1, 64, 127, 128, 191, 254, 255];
+                                        let a = *t.choose(r).unwrap();
+                                        let b = *t.choose(r).unwrap();
+                                        let c = match r.gen_range(0..6) {
+                                            0 => [a, a, a],
+                                            1 => [a, a, b],
+                                            2 => [a, b, a],
+                                            3 => [b, a, a],
+                                            4 => [a, b, *t.choose(r).unwrap()],
+                                            _ => [r.gen(), r.gen(), r.gen()],
+                                        };
+                                        [c[0], c[1], c[2], *[255u8, 255, 128, 1, 0, 254].choose(r).unwrap()]
+                                    }
+                                    "laws" => [r.gen(), r.gen(), r.gen(), *[0u8, 0, 255, 255, 1, 128].choose(r).unwrap()],
+                                    _ => [*LATTICE.choose(r).unwrap(), *LATTICE.choose(r).unwrap(), *LATTICE.choose(r).unwrap(), *LATTICE.choose(r).unwrap()],
+                                }
+                            };
+                            (px(&mut r), px(&mut r))
+                        })
+                        .collect();
+                    o.emit(m, lop, cop, &v);
+                    done += k;
+                }
+            }
+        }
+        _ => {
+            eprintln!("unknown stratum {}", stratum);
+            std::process::exit(2);
+        }
+    }
+    for out in &mut o.outs {
+        out.flush();
+    }
+    println!("{}", json!({"events": o.events, "vectors": o.vectors}));
 }
 pub fn readers_cmd(_args: &[String]) {
     unimplemented!()
